@@ -137,7 +137,7 @@ pub fn gen_ttl_family_c(prop: &str, seed: u64, faulty: bool, conditional: bool) 
     let budget = 70 * SEC;
     // generator-side view of deadlines (exact in the fault-free configuration)
     let mut deadlines: Vec<u64> = Vec::new();
-    let steps = rng.range(5, 28);
+    let steps = if THOROUGH.load(std::sync::atomic::Ordering::SeqCst) { rng.range(5, 60) } else { rng.range(5, 28) };
     let mut writes = 0usize;
     for _ in 0..steps {
         if conditional && rng.chance(22, 100) {
@@ -302,6 +302,8 @@ pub struct PProfile {
     pub coster_pct: u64,
     pub exit_only_cb_pct: u64,
     pub wide_config: bool,
+    /// share of get_ttl among lookups, in tenths
+    pub get_ttl_tenths: u64,
 }
 
 impl Default for PProfile {
@@ -333,11 +335,24 @@ impl Default for PProfile {
             coster_pct: 20,
             exit_only_cb_pct: 0,
             wide_config: false,
+            get_ttl_tenths: 1,
         }
     }
 }
 
+/// set by `dst check --tier thorough`: longer scripts and larger key universes
+pub static THOROUGH: std::sync::atomic::AtomicBool = std::sync::atomic::AtomicBool::new(false);
+
 pub fn profile_for(prop: &str) -> PProfile {
+    let mut p = profile_for_quick(prop);
+    if THOROUGH.load(std::sync::atomic::Ordering::SeqCst) {
+        p.ops.1 *= 2;
+        p.keys.1 += 4;
+    }
+    p
+}
+
+fn profile_for_quick(prop: &str) -> PProfile {
     let d = PProfile::default();
     match prop {
         "C01" => PProfile { over_capacity_pct: 85, chaos_umc_pct: 50, chaos_clear_pct: 10, if_present_pct: 12, collide_pct: 5, ..d },
@@ -351,7 +366,7 @@ pub fn profile_for(prop: &str) -> PProfile {
         "C13" => PProfile { lookup_pct: 75, keys: (1, 12), wide_config: true, chaos_clear_pct: 15, over_capacity_pct: 20, ops: (8, 40), remove_pct: 3, ..d },
         "C15" => PProfile { lookup_pct: 75, keys: (1, 8), wide_config: true, metrics_on: true, ops: (8, 40), remove_pct: 3, chaos_close_pct: 15, ..d },
         "C17" => PProfile { metrics_on: true, inline_clear_pct: 10, over_capacity_pct: 60, small_buffer_pct: 30, ..d },
-        "C18" => PProfile { collide_pct: 100, keys: (2, 6), get_mut_write: true, ..d },
+        "C18" => PProfile { collide_pct: 100, keys: (2, 6), get_mut_write: true, ttl_pct: 50, get_ttl_tenths: 4, lookup_pct: 40, ..d },
         "C20" => PProfile { wide_config: true, ops: (3, 14), metrics_on: false, over_capacity_pct: 50, ..d },
         _ => d,
     }
@@ -385,7 +400,7 @@ pub fn gen_p_family(prop: &str, seed: u64, pf: &PProfile) -> Plan {
         // keys 1.. so that several share an index
         let mut u: Vec<u64> = Vec::new();
         while u.len() < n_keys {
-            let k = rng.range(1, 12);
+            let k = rng.range(1, (2 * n_keys as u64).max(12));
             if !u.contains(&k) {
                 u.push(k);
             }
@@ -463,7 +478,7 @@ pub fn gen_p_family(prop: &str, seed: u64, pf: &PProfile) -> Plan {
                     r < acc
                 };
                 if pickp(pf.lookup_pct) {
-                    script.push(match rng.below(10) {
+                    script.push(match if rng.below(10) < pf.get_ttl_tenths { 7 } else { rng.below(10) } {
                         0..=6 => Op::Get { k, hold: if rng.chance(1, 6) { rng.range(1, 5) as u32 } else { 0 } },
                         7 => Op::GetTtl { k },
                         _ => Op::GetMut { k, write: pf.get_mut_write && rng.chance(1, 2), size: rng.range(1, 9) as u32, hold: if rng.chance(1, 6) { rng.range(1, 3) as u32 } else { 0 } },
@@ -656,7 +671,7 @@ pub fn gen_c18_lockstep(seed: u64) -> Plan {
     let n_keys = rng.range(2, 6) as usize;
     let mut universe: Vec<u64> = Vec::new();
     while universe.len() < n_keys {
-        let k = rng.range(1, 12);
+        let k = rng.range(1, (2 * n_keys as u64).max(12));
         if !universe.contains(&k) {
             universe.push(k);
         }
